@@ -350,6 +350,11 @@ def cases(tier, seed):
         out.append({"kind": "dag", "eb": [[rng.randrange(n), rng.randrange(n)] for _ in range(rng.randint(0, 7))]})
     for i in range(nu):
         out.append({"kind": "ucopy", "seed": rng.randint(0, 10**9), "cls": rng.choice(["mn", "cg", "jt"])})
+    # rejected multi-argument calls: every target several times in every tier
+    per = 12 if tier == "quick" else 80
+    for t in sorted(MULTI):
+        for i in range(per):
+            out.append({"kind": "multi", "target": t, "seed": rng.randint(0, 10**9)})
     return out
 
 
@@ -967,8 +972,332 @@ def run_ucopy(case, drv):
     return ok(nontrivial=bool(c0[1]) or bool(c0[2]), key=common.canon_key(["ucopy", case]), tags=tags)
 
 
+# ------------------------------------------------------------------ rejected multi-argument calls
+# For every multi-argument mutator: k valid arguments, one invalid argument at position >= 1, possibly more valid
+# ones after it.  The call must raise the listed exception, and the state afterwards must be
+#   ATOMIC : exactly the snapshot taken before the call (all arguments are validated before anything is stored);
+#   PREFIX : exactly what the valid arguments BEFORE the invalid one produce when passed one at a time (the
+#            mutator is documented/implemented as a loop over its arguments and stops at the first failure).
+# The class of each mutator is the behaviour of the pinned code base; any drift (an atomic mutator that starts to
+# half-apply, a loop that skips/reorders/duplicates) is a violation.  DBN.add_cpds is also compared with the Coq
+# model (dbn_add_cpds, theorem C15_dbn_add_cpds_rejected_no_change); the BayesianNetwork mutators are in addition
+# driven through the Coq store machine by the "bn" histories.
+ATOMIC, PREFIX = "atomic", "prefix"
+
+
+def _cpd(var, card, ev=(), ecard=(), rng=None):
+    from pgmpy.factors.discrete import TabularCPD
+    ncol = 1
+    for k in ecard:
+        ncol *= k
+    cols = [common.rand_column(rng, card) for _ in range(ncol)]
+    vals = [[float(col[r]) for col in cols] for r in range(card)]
+    if ev:
+        return TabularCPD(var, card, vals, evidence=list(ev), evidence_card=list(ecard))
+    return TabularCPD(var, card, vals)
+
+
+def _phi(vs, rng):
+    from pgmpy.factors.discrete import DiscreteFactor
+    return DiscreteFactor(list(vs), [2] * len(vs), [rng.randint(1, 16) for _ in range(2 ** len(vs))])
+
+
+def _canon_node(x):
+    if hasattr(x, "variables") and hasattr(x, "values"):
+        return ("factor", tuple(map(repr, x.variables)))
+    if hasattr(x, "time_slice"):          # DynamicNode: its repr carries an address
+        return repr((x.node, x.time_slice))
+    return repr(x)
+
+
+def multi_content(G):
+    """full observable state: nodes, edges, latents, CPDs / factors (scope, cardinalities, every value) in list order"""
+    directed = G.is_directed()
+    nodes = sorted(map(repr, map(_canon_node, G.nodes())))
+    edges = sorted(repr((_canon_node(u), _canon_node(v)) if directed else tuple(sorted(map(repr, (_canon_node(u), _canon_node(v))))))
+                   for u, v in G.edges())
+    tabs = []
+    for f in list(getattr(G, "cpds", [])) + list(getattr(G, "factors", [])):
+        tabs.append((type(f).__name__, [_canon_node(v) for v in f.variables], [int(k) for k in f.cardinality],
+                     [round(float(x), 12) for x in f.values.flatten()]))
+    lat = sorted(map(repr, getattr(G, "latents", []) or []))
+    return {"nodes": nodes, "edges": edges, "tables": tabs, "latents": lat}
+
+
+def _mk_dbn(rng):
+    from pgmpy.models import DynamicBayesianNetwork
+    G = DynamicBayesianNetwork()
+    G.add_edges_from([(("D", 0), ("G", 0)), (("D", 0), ("D", 1))])
+    if rng.random() < 0.5:
+        G.add_edge(("I", 0), ("G", 0))
+    if rng.random() < 0.5:
+        G.add_cpds(_cpd(("D", 0), 2, rng=rng))
+    return G
+
+
+def _mk_bn(rng):
+    from pgmpy.models import BayesianNetwork
+    G = BayesianNetwork([("A", "B"), ("A", "C"), ("B", "D")])
+    if rng.random() < 0.5:
+        G.add_node("E", latent=rng.random() < 0.5)
+    if rng.random() < 0.6:
+        G.add_cpds(_cpd("A", 2, rng=rng), _cpd("B", 2, ["A"], [2], rng=rng))
+    return G
+
+
+def _mk_mn(rng):
+    from pgmpy.models import MarkovNetwork
+    G = MarkovNetwork([("a", "b"), ("b", "c"), ("c", "d")])
+    if rng.random() < 0.6:
+        G.add_factors(_phi(["a", "b"], rng), _phi(["b", "c"], rng))
+    return G
+
+
+def _mk_fg(rng):
+    from pgmpy.models import FactorGraph
+    G = FactorGraph()
+    G.add_nodes_from(["a", "b", "c"])
+    f1 = _phi(["a", "b"], rng)
+    G.add_node(f1)
+    G.add_edges_from([("a", f1), ("b", f1)])
+    G.add_factors(f1)
+    if rng.random() < 0.5:
+        f2 = _phi(["b", "c"], rng)
+        G.add_node(f2)
+        G.add_edges_from([("b", f2), ("c", f2)])
+        G.add_factors(f2)
+    return G
+
+
+def _mk_cg(rng, cls="cg"):
+    from pgmpy.models import ClusterGraph, JunctionTree
+    G = ClusterGraph() if cls == "cg" else JunctionTree()
+    G.add_edge(("a", "b"), ("b", "c"))
+    G.add_edge(("b", "c"), ("c", "d"))
+    if rng.random() < 0.6:
+        G.add_factors(_phi(["a", "b"], rng))
+    return G
+
+
+def _mk_dag(rng):
+    from pgmpy.base import DAG
+    return DAG([("A", "B"), ("B", "C")])
+
+
+def _t_add_tables(mk, meth, valid, invalid, exc, cls):
+    """targets whose arguments are CPD / factor objects"""
+    def plan(rng, G):
+        k = rng.randint(1, 3)
+        specs = [("new", valid(rng, G)) for _ in range(k)]
+        pos = rng.randint(1, k)
+        specs.insert(pos, ("new", invalid(rng, G)))
+        return specs, pos
+    return {"mk": mk, "plan": plan, "exc": exc, "cls": cls,
+            "call": lambda G, args: getattr(G, meth)(*args), "call1": lambda G, a: getattr(G, meth)(a),
+            "resolve": lambda G, spec: spec[1]}
+
+
+def _t_from(mk, meth, valid, invalid, exc, cls, kw=None):
+    """targets taking one list argument (add_edges_from / add_nodes_from / remove_nodes_from)"""
+    def plan(rng, G):
+        k = rng.randint(1, 3)
+        vs = valid(rng, G, k)
+        pos = rng.randint(1, len(vs))
+        specs = [("lit", v) for v in vs]
+        specs.insert(pos, ("lit", invalid(rng, G)))
+        return specs, pos
+    return {"mk": mk, "plan": plan, "exc": exc, "cls": cls,
+            "call": lambda G, args: getattr(G, meth)(list(args), **(kw(args) if kw else {})),
+            "call1": lambda G, a: getattr(G, meth)([a]),
+            "resolve": lambda G, spec: spec[1]}
+
+
+def _t_remove(mk, meth, attr, invalid, exc, by_name=None):
+    """targets removing stored CPDs / factors: arguments are the model's own objects (by index) or names"""
+    def plan(rng, G):
+        n = len(getattr(G, attr))
+        idxs = list(range(n))
+        rng.shuffle(idxs)
+        specs = [("own", i) for i in idxs[: rng.randint(1, max(1, n))]] or []
+        pos = rng.randint(1, len(specs)) if specs else 0
+        specs.insert(pos, ("lit", invalid(rng, G)))
+        return specs, pos
+
+    def resolve(G, spec):
+        if spec[0] == "lit":
+            return spec[1]
+        obj = G._c15_own[spec[1]]
+        return by_name(obj) if by_name else obj
+    return {"mk": mk, "plan": plan, "exc": exc, "cls": PREFIX, "own": attr, "need_tables": True,
+            "call": lambda G, args: getattr(G, meth)(*args), "call1": lambda G, a: getattr(G, meth)(a),
+            "resolve": resolve}
+
+
+def _bn_valid_cpd(rng, G):
+    v = rng.choice(sorted(G.nodes()))
+    pa = sorted(G.predecessors(v)) if rng.random() < 0.8 else []
+    return _cpd(v, 2, pa, [2] * len(pa), rng=rng)
+
+
+def _dbn_valid_cpd(rng, G):
+    v = rng.choice(sorted(G.nodes(), key=repr))
+    pa = sorted(G.predecessors(v), key=repr) if rng.random() < 0.8 else []
+    return _cpd(tuple(v), 2, [tuple(p) for p in pa], [2] * len(pa), rng=rng)
+
+
+def _bad_cpd(rng, G):
+    r = rng.random()
+    if r < 0.45:
+        return _cpd(("Z", 0) if not G.is_directed() or any(isinstance(n, tuple) or hasattr(n, "time_slice") for n in G.nodes()) else "Z",
+                    2, rng=rng)
+    if r < 0.8:
+        known = sorted(G.nodes(), key=repr)[0]
+        known = tuple(known) if hasattr(known, "time_slice") else known
+        unknown = ("Z", 0) if isinstance(known, tuple) else "Z"
+        return _cpd(known, 2, [unknown], [2], rng=rng)
+    return "not a cpd"
+
+
+def _mn_valid_phi(rng, G):
+    u, v = rng.choice(sorted(G.edges()))
+    return _phi([u, v] if rng.random() < 0.8 else [u], rng)
+
+
+def _cg_valid_phi(rng, G):
+    return _phi(list(rng.choice(sorted(G.nodes()))), rng)
+
+
+def _fg_valid_phi(rng, G):
+    vs = sorted(n for n in G.nodes() if isinstance(n, str))
+    return _phi(rng.sample(vs, rng.randint(1, 2)), rng)
+
+
+def _bn_valid_edges(rng, G, k):
+    pool = [("C", "F"), ("D", "F"), ("A", "D"), ("F", "H"), ("C", "H"), ("B", "C")]
+    return rng.sample(pool, k)
+
+
+def _bn_bad_edge(rng, G):
+    return rng.choice([("D", "A"), ("B", "B"), ("C", "A"), ("Q", "Q")])
+
+
+def _dbn_valid_edges(rng, G, k):
+    pool = [(("G", 0), ("L", 0)), (("G", 0), ("G", 1)), (("I", 0), ("I", 1)), (("L", 0), ("L", 1)), (("D", 0), ("L", 0))]
+    return rng.sample(pool, k)
+
+
+def _dbn_bad_edge(rng, G):
+    return rng.choice([(("G", 0), ("D", 0)), (("D", 1), ("D", 0)), (("D", 0), ("D", 0)), (("D", 0), ("G", 2))])
+
+
+MULTI = {
+    "dbn.add_cpds": _t_add_tables(_mk_dbn, "add_cpds", _dbn_valid_cpd, _bad_cpd, (ValueError,), ATOMIC),
+    "bn.add_cpds": _t_add_tables(_mk_bn, "add_cpds", _bn_valid_cpd, _bad_cpd, (ValueError,), PREFIX),
+    "mn.add_factors": _t_add_tables(_mk_mn, "add_factors", _mn_valid_phi, lambda rng, G: _phi(["a", "zz"], rng), (ValueError,), PREFIX),
+    "fg.add_factors": _t_add_tables(_mk_fg, "add_factors", _fg_valid_phi, lambda rng, G: _phi(["a", "zz"], rng), (ValueError,), PREFIX),
+    "cg.add_factors": _t_add_tables(_mk_cg, "add_factors", _cg_valid_phi, lambda rng, G: _phi(["a", "d"], rng), (ValueError,), PREFIX),
+    "jt.add_factors": _t_add_tables(lambda rng: _mk_cg(rng, "jt"), "add_factors", _cg_valid_phi,
+                                    lambda rng, G: _phi(["a", "d"], rng), (ValueError,), PREFIX),
+    "bn.add_edges_from": _t_from(_mk_bn, "add_edges_from", _bn_valid_edges, _bn_bad_edge, (ValueError,), PREFIX),
+    "dbn.add_edges_from": _t_from(_mk_dbn, "add_edges_from", _dbn_valid_edges, _dbn_bad_edge,
+                                  (ValueError, NotImplementedError), PREFIX),
+    "mn.add_edges_from": _t_from(_mk_mn, "add_edges_from", lambda rng, G, k: rng.sample([("a", "c"), ("d", "e"), ("e", "f"), ("a", "d")], k),
+                                 lambda rng, G: ("b", "b"), (ValueError,), PREFIX),
+    "fg.add_edges_from": _t_from(_mk_fg, "add_edges_from", lambda rng, G, k: rng.sample([("a", "x1"), ("c", "x2"), ("b", "x3")], k),
+                                 lambda rng, G: ("c", "c"), (ValueError,), PREFIX),
+    "jt.add_edges_from": _t_from(lambda rng: _mk_cg(rng, "jt"), "add_edges_from",
+                                 lambda rng, G, k: rng.sample([(("c", "d"), ("d", "e")), (("a", "b"), ("a", "f")), (("b", "c"), ("c", "g"))], k),
+                                 lambda rng, G: rng.choice([(("a", "b"), ("c", "d")), (("a", "b"), ("a", "b")), (("a", "b"), ("x", "y"))]),
+                                 (ValueError,), PREFIX),
+    "bn.add_edges_from:weights": _t_from(_mk_bn, "add_edges_from", _bn_valid_edges, lambda rng, G: ("C", "G"), (ValueError,), ATOMIC,
+                                         kw=lambda args: {"weights": [1] * (len(args) + 1)}),
+    "dag.add_edges_from:weights": _t_from(_mk_dag, "add_edges_from", _bn_valid_edges, lambda rng, G: ("C", "G"), (ValueError,), ATOMIC,
+                                          kw=lambda args: {"weights": [1] * (len(args) - 1)}),
+    "bn.add_nodes_from:weights": _t_from(_mk_bn, "add_nodes_from", lambda rng, G, k: rng.sample(["P", "Q", "R", "A"], k),
+                                         lambda rng, G: "S", (ValueError,), ATOMIC, kw=lambda args: {"weights": [2] * (len(args) + 1)}),
+    "bn.add_nodes_from:latent": _t_from(_mk_bn, "add_nodes_from", lambda rng, G, k: rng.sample(["P", "Q", "R", "A"], k),
+                                        lambda rng, G: "S", (IndexError,), PREFIX, kw=lambda args: {"latent": [False] * args.index("S")}),
+    "cg.add_nodes_from": _t_from(_mk_cg, "add_nodes_from", lambda rng, G, k: rng.sample([("d", "e"), ("e",), ("a", "f")], k),
+                                 lambda rng, G: "not-a-clique", (TypeError,), PREFIX),
+    "bn.remove_nodes_from": _t_from(_mk_bn, "remove_nodes_from", lambda rng, G, k: rng.sample(["A", "B", "C", "D"], k),
+                                    lambda rng, G: "nope", (ValueError,), PREFIX),
+    "bn.remove_cpds": _t_remove(_mk_bn, "remove_cpds", "cpds", lambda rng, G: rng.choice(["D", "nope"]), (ValueError,),
+                                by_name=lambda c: c.variable),
+    "dbn.remove_cpds": _t_remove(_mk_dbn, "remove_cpds", "cpds", lambda rng, G: rng.choice([("G", 0), ("Z", 0)]), (ValueError,),
+                                 by_name=lambda c: tuple(c.variable)),
+    "mn.remove_factors": _t_remove(_mk_mn, "remove_factors", "factors", lambda rng, G: _phi(["c", "d"], rng), (ValueError,)),
+    "fg.remove_factors": _t_remove(_mk_fg, "remove_factors", "factors", lambda rng, G: _phi(["a", "c"], rng), (ValueError,)),
+    "cg.remove_factors": _t_remove(_mk_cg, "remove_factors", "factors", lambda rng, G: _phi(["c", "d"], rng), (ValueError,)),
+}
+
+
+def run_multi(case, drv):
+    T = MULTI[case["target"]]
+    tags = ["multi " + case["target"], "multi class=" + T["cls"]]
+    key = common.canon_key(["multi", case["target"], case["seed"]])
+    G = T["mk"](random.Random(case["seed"]))
+    twin = T["mk"](random.Random(case["seed"]))
+    for X in (G, twin):
+        if "own" in T:
+            X._c15_own = list(getattr(X, T["own"]))
+    if T.get("need_tables") and not getattr(G, T["own"]):
+        # nothing stored: give both objects one table so that a valid argument exists
+        for X in (G, twin):
+            r = random.Random(case["seed"] + 1)
+            if T["own"] == "cpds":
+                X.add_cpds(_dbn_valid_cpd(r, X) if case["target"].startswith("dbn") else _cpd("A", 2, rng=r))
+            else:
+                X.add_factors(_cg_valid_phi(r, X) if case["target"].startswith("cg") else
+                              (_phi(["a", "b"], r) if not case["target"].startswith("fg") else _phi(["a"], r)))
+            X._c15_own = list(getattr(X, T["own"]))
+    if multi_content(G) != multi_content(twin):
+        raise RuntimeError("fixture not deterministic")
+    specs, pos = T["plan"](random.Random(case["seed"] + 2), G)
+    before = multi_content(G)
+    stored_before = list(getattr(G, "cpds", []))
+    args = [T["resolve"](G, sp) for sp in specs]
+    try:
+        T["call"](G, args)
+        raised = None
+    except T["exc"] as e:
+        raised = type(e).__name__
+    detail = {"target": case["target"], "args": [repr(a)[:80] for a in args], "invalid_position": pos, "class": T["cls"]}
+    if raised is None:
+        return bad("impl!=spec:multi-invalid-argument-accepted", detail, key=key, tags=tags)
+    tags.append("multi raised=" + raised)
+    # expected state
+    if T["cls"] == PREFIX:
+        for sp in specs[:pos]:
+            T["call1"](twin, T["resolve"](twin, sp))
+    exp = multi_content(twin)
+    got = multi_content(G)
+    if got != exp:
+        diff = {k: {"impl": got[k], "expected": exp[k]} for k in got if got[k] != exp[k]}
+        kind = "impl!=spec:rejected-multi-call-changed-model" if T["cls"] == ATOMIC else "impl!=spec:rejected-multi-call-wrong-prefix"
+        return bad(kind, dict(detail, diff=diff, before=before if T["cls"] == ATOMIC else None), key=key, tags=tags)
+    if T["cls"] == ATOMIC and got != before:
+        return bad("impl!=spec:rejected-multi-call-changed-model", dict(detail, before=before, after=got), key=key, tags=tags)
+    # the Coq model's verdict for DBN.add_cpds
+    if case["target"] == "dbn.add_cpds":
+        names = sorted({repr(tuple(n)) for n in G.nodes()} | {repr(v if not hasattr(v, "time_slice") else tuple(v))
+                                                               for a in args if hasattr(a, "variables") for v in a.variables})
+        nid = {nm: i for i, nm in enumerate(names)}
+        sc = lambda c: [nid[repr(tuple(v) if hasattr(v, "time_slice") else v)] for v in c.variables]
+        cs = [[i, sc(c)] for i, c in enumerate(stored_before)]
+        new = [[len(cs) + j, (sc(a) if hasattr(a, "variables") else [len(names) + 5])] for j, a in enumerate(args)]
+        mout, mids = drv.call("c15_dbn_add_cpds", [[nid[repr(tuple(n))] for n in G.nodes()], cs, new])
+        ids = {id(c): i for i, c in enumerate(stored_before)}
+        ids.update({id(a): len(cs) + j for j, a in enumerate(args)})
+        real_ids = [ids.get(id(c), -1) for c in G.cpds]
+        if mout != 1 or mids != real_ids:
+            return bad("impl!=model:dbn-add-cpds", dict(detail, model=[mout, mids], impl=real_ids), key=key, tags=tags)
+    return ok(nontrivial=True, key=key, tags=tags)
+
+
 def run_case(case, drv):
     k = case["kind"]
+    if k == "multi":
+        return run_multi(case, drv)
     if k == "bn":
         return run_bn(case, drv)
     if k == "dbn":
